@@ -1,7 +1,7 @@
 /-
   Driver/C12.lean — line-protocol front end of Model/Otlp.lean, part 2 (delivery).
     stream `c12` :
-      (c12 (cfg http|grpc proto|json GZIP LIMIT) (sig LOGS TRACES METRICS) (dead SIGNAL…)
+      (c12 (cfg http|grpc proto|json|mixedpjp|mixedjpj GZIP LIMIT) (sig LOGS TRACES METRICS) (dead SIGNAL…)
            (events (ev ID log|span|metric xMDL PAD SIZE)…)
            (script (logs R…) (traces R…) (metrics R…)) (end flush|drop))
       R ::= ack | ackbody | (status N) | (grpc N) | (grpch N) | stall | stallh | rsth | drph | rstb | rsta
@@ -98,7 +98,10 @@ def runC12 (line : String) : String :=
                  .list (.atom "dead" :: dead), .list (.atom "events" :: evs),
                  .list [.atom "script", sl, st, sm], .list [.atom "end", .atom endMode]]) =>
     let tr? : Option Transport := match tr with | .atom "http" => some .http | .atom "grpc" => some .grpc | _ => none
-    let enc? : Option Bool := match enc with | .atom "proto" => some false | .atom "json" => some true | _ => none
+    -- `mixedpjp` / `mixedjpj`: a different encoding per signal (HTTP only); like the encoding itself, not modelled
+    let enc? : Option Bool := match enc with
+      | .atom "proto" => some false | .atom "json" => some true | .atom "mixedpjp" => some true | .atom "mixedjpj" => some true
+      | _ => none
     match tr?, enc?, gz.bool?, lim.nat?, l.bool?, t.bool?, m.bool?, dead.mapM signalName?, evs.mapM ev?,
           scriptOf? "logs" sl, scriptOf? "traces" st, scriptOf? "metrics" sm with
     | some tr, some json, some _, some limit, some l, some t, some m, some dead, some evs,
